@@ -24,6 +24,8 @@ pub struct TypeInfo {
     pub optional: bool,
     /// is Copy (needed by BesselDual)
     pub copy: bool,
+    /// implements nalgebra's RealField / PartialOrd (the four field-compatible types)
+    pub field: bool,
 }
 
 /// visitor for the Copy types (needed by the BesselDual trait)
@@ -32,6 +34,24 @@ pub trait TyVisitorCopy {
     fn visit<T>(self, dims: &[usize]) -> Self::Out
     where
         T: Ty + DualNum<<T as Ty>::F> + Copy + BesselDual;
+}
+
+macro_rules! field_arm {
+    (true, $v:ident, $t:ty, $dims:ident) => {
+        $v.visit::<$t>($dims)
+    };
+    (false, $v:ident, $t:ty, $dims:ident) => {
+        panic!("HARNESS-BUG: type is not field-compatible")
+    };
+}
+
+/// visitor for the four field-compatible types (nalgebra RealField, PartialOrd)
+pub trait TyVisitorField {
+    type Out;
+    fn visit<T>(self, dims: &[usize]) -> Self::Out
+    where
+        T: Ty + DualNum<<T as Ty>::F> + PartialOrd + nalgebra::RealField,
+        <T as Ty>::F: nalgebra::RealField;
 }
 
 macro_rules! bessel_arm {
@@ -69,9 +89,9 @@ pub trait TyVisitor {
 }
 
 macro_rules! registry {
-    ($( ($id:expr, $name:literal, $t:ty, $kind:ident, $ndyn:expr, $is32:tt, $order:expr, $opt:expr, $copy:tt) ),* $(,)?) => {
+    ($( ($id:expr, $name:literal, $t:ty, $kind:ident, $ndyn:expr, $is32:tt, $order:expr, $opt:expr, $copy:tt, $field:tt) ),* $(,)?) => {
         pub const TYPES: &[TypeInfo] = &[
-            $( TypeInfo { name: $name, kind: Kind::$kind, ndyn: $ndyn, is32: $is32, order: $order, optional: $opt, copy: $copy } ),*
+            $( TypeInfo { name: $name, kind: Kind::$kind, ndyn: $ndyn, is32: $is32, order: $order, optional: $opt, copy: $copy, field: $field } ),*
         ];
         pub fn dispatch<V: TyVisitor>(tid: usize, dims: &[usize], v: V) -> V::Out {
             match tid {
@@ -82,6 +102,13 @@ macro_rules! registry {
         pub fn dispatch_ref<V: TyVisitorRef>(tid: usize, dims: &[usize], v: V) -> V::Out {
             match tid {
                 $( $id => v.visit::<$t>(dims), )*
+                _ => panic!("HARNESS-BUG: unknown type id {tid}"),
+            }
+        }
+        /// only the field-compatible types
+        pub fn dispatch_field<V: TyVisitorField>(tid: usize, dims: &[usize], v: V) -> V::Out {
+            match tid {
+                $( $id => field_arm!($field, v, $t, dims), )*
                 _ => panic!("HARNESS-BUG: unknown type id {tid}"),
             }
         }
@@ -98,64 +125,64 @@ macro_rules! registry {
 type D64 = Dual64;
 
 registry! {
-    (0, "Dual64", Dual64, Scalar, 0, false, 1, false, true),
-    (1, "Dual2_64", Dual2_64, Scalar, 0, false, 2, false, true),
-    (2, "Dual3_64", Dual3_64, Scalar, 0, false, 3, false, true),
-    (3, "HyperDual64", HyperDual64, Scalar, 0, false, 2, false, true),
-    (4, "HyperHyperDual64", HyperHyperDual64, Scalar, 0, false, 3, false, true),
-    (5, "Dual32", Dual32, Scalar, 0, true, 1, false, true),
-    (6, "Dual2_32", Dual2_32, Scalar, 0, true, 2, false, true),
-    (7, "Dual3_32", Dual3_32, Scalar, 0, true, 3, false, true),
-    (8, "HyperDual32", HyperDual32, Scalar, 0, true, 2, false, true),
-    (9, "HyperHyperDual32", HyperHyperDual32, Scalar, 0, true, 3, false, true),
-    (10, "DualSVec64<1>", DualSVec64<1>, Vector, 0, false, 1, true, true),
-    (11, "DualSVec64<2>", DualSVec64<2>, Vector, 0, false, 1, true, true),
-    (12, "DualSVec64<3>", DualSVec64<3>, Vector, 0, false, 1, true, true),
-    (13, "DualSVec64<4>", DualSVec64<4>, Vector, 0, false, 1, true, true),
-    (14, "DualSVec64<5>", DualSVec64<5>, Vector, 0, false, 1, true, true),
-    (15, "DualSVec64<6>", DualSVec64<6>, Vector, 0, false, 1, true, true),
-    (16, "Dual2SVec64<1>", Dual2SVec64<1>, Vector, 0, false, 2, true, true),
-    (17, "Dual2SVec64<2>", Dual2SVec64<2>, Vector, 0, false, 2, true, true),
-    (18, "Dual2SVec64<3>", Dual2SVec64<3>, Vector, 0, false, 2, true, true),
-    (19, "Dual2SVec64<4>", Dual2SVec64<4>, Vector, 0, false, 2, true, true),
-    (20, "Dual2SVec64<5>", Dual2SVec64<5>, Vector, 0, false, 2, true, true),
-    (21, "Dual2SVec64<6>", Dual2SVec64<6>, Vector, 0, false, 2, true, true),
-    (22, "HyperDualSVec64<1,1>", HyperDualSVec64<1, 1>, Vector, 0, false, 2, true, true),
-    (23, "HyperDualSVec64<1,3>", HyperDualSVec64<1, 3>, Vector, 0, false, 2, true, true),
-    (24, "HyperDualSVec64<2,2>", HyperDualSVec64<2, 2>, Vector, 0, false, 2, true, true),
-    (25, "HyperDualSVec64<2,3>", HyperDualSVec64<2, 3>, Vector, 0, false, 2, true, true),
-    (26, "HyperDualSVec64<3,1>", HyperDualSVec64<3, 1>, Vector, 0, false, 2, true, true),
-    (27, "HyperDualSVec64<3,3>", HyperDualSVec64<3, 3>, Vector, 0, false, 2, true, true),
-    (28, "HyperDualSVec64<6,2>", HyperDualSVec64<6, 2>, Vector, 0, false, 2, true, true),
-    (29, "HyperDualSVec64<2,6>", HyperDualSVec64<2, 6>, Vector, 0, false, 2, true, true),
-    (30, "HyperDualSVec64<6,6>", HyperDualSVec64<6, 6>, Vector, 0, false, 2, true, true),
-    (31, "DualDVec64", DualDVec64, Vector, 1, false, 1, true, false),
-    (32, "Dual2DVec64", Dual2DVec64, Vector, 1, false, 2, true, false),
-    (33, "HyperDualDVec64", HyperDualDVec64, Vector, 2, false, 2, true, false),
-    (34, "DualSVec32<2>", DualSVec32<2>, Vector, 0, true, 1, true, true),
-    (35, "DualSVec32<3>", DualSVec32<3>, Vector, 0, true, 1, true, true),
-    (36, "Dual2SVec32<2>", Dual2SVec32<2>, Vector, 0, true, 2, true, true),
-    (37, "Dual2SVec32<3>", Dual2SVec32<3>, Vector, 0, true, 2, true, true),
-    (38, "HyperDualSVec32<2,3>", HyperDualSVec32<2, 3>, Vector, 0, true, 2, true, true),
-    (39, "DualDVec32", DualDVec32, Vector, 1, true, 1, true, false),
-    (40, "Dual2DVec32", Dual2DVec32, Vector, 1, true, 2, true, false),
-    (41, "HyperDualDVec32", HyperDualDVec32, Vector, 2, true, 2, true, false),
-    (42, "Dual<Dual64>", Dual<D64, f64>, Nested, 0, false, 2, false, true),
-    (43, "Dual<Dual<Dual64>>", Dual<Dual<D64, f64>, f64>, Nested, 0, false, 3, false, true),
-    (44, "Dual2<Dual64>", Dual2<D64, f64>, Nested, 0, false, 3, false, true),
-    (45, "Dual<Dual2_64>", Dual<Dual2_64, f64>, Nested, 0, false, 3, false, true),
-    (46, "Dual3<Dual64>", Dual3<D64, f64>, Nested, 0, false, 4, false, true),
-    (47, "HyperDual<Dual64>", HyperDual<D64, f64>, Nested, 0, false, 3, false, true),
-    (48, "Dual2<Dual2_64>", Dual2<Dual2_64, f64>, Nested, 0, false, 4, false, true),
-    (49, "HyperDual<HyperDual64>", HyperDual<HyperDual64, f64>, Nested, 0, false, 4, false, true),
-    (50, "DualVec<Dual64,2>", DualVec<D64, f64, Const<2>>, Nested, 0, false, 2, true, true),
-    (51, "DualVec<Dual64,3>", DualVec<D64, f64, Const<3>>, Nested, 0, false, 2, true, true),
-    (52, "Dual<DualSVec64<2>>", Dual<DualSVec64<2>, f64>, Nested, 0, false, 2, true, true),
-    (53, "Dual2Vec<Dual64,2>", Dual2Vec<D64, f64, Const<2>>, Nested, 0, false, 3, true, true),
-    (54, "Dual<Dual32>", Dual<Dual32, f32>, Nested, 0, true, 2, false, true),
-    (55, "HyperDualVec<Dual64,2,2>", HyperDualVec<D64, f64, Const<2>, Const<2>>, Nested, 0, false, 3, true, true),
-    (56, "DualVec<Dual64,Dyn>", DualVec<D64, f64, Dyn>, Nested, 1, false, 2, true, false),
-    (57, "HyperHyperDual<Dual64>", HyperHyperDual<D64, f64>, Nested, 0, false, 4, false, true),
+    (0, "Dual64", Dual64, Scalar, 0, false, 1, false, true, true),
+    (1, "Dual2_64", Dual2_64, Scalar, 0, false, 2, false, true, true),
+    (2, "Dual3_64", Dual3_64, Scalar, 0, false, 3, false, true, false),
+    (3, "HyperDual64", HyperDual64, Scalar, 0, false, 2, false, true, false),
+    (4, "HyperHyperDual64", HyperHyperDual64, Scalar, 0, false, 3, false, true, false),
+    (5, "Dual32", Dual32, Scalar, 0, true, 1, false, true, true),
+    (6, "Dual2_32", Dual2_32, Scalar, 0, true, 2, false, true, true),
+    (7, "Dual3_32", Dual3_32, Scalar, 0, true, 3, false, true, false),
+    (8, "HyperDual32", HyperDual32, Scalar, 0, true, 2, false, true, false),
+    (9, "HyperHyperDual32", HyperHyperDual32, Scalar, 0, true, 3, false, true, false),
+    (10, "DualSVec64<1>", DualSVec64<1>, Vector, 0, false, 1, true, true, true),
+    (11, "DualSVec64<2>", DualSVec64<2>, Vector, 0, false, 1, true, true, true),
+    (12, "DualSVec64<3>", DualSVec64<3>, Vector, 0, false, 1, true, true, true),
+    (13, "DualSVec64<4>", DualSVec64<4>, Vector, 0, false, 1, true, true, true),
+    (14, "DualSVec64<5>", DualSVec64<5>, Vector, 0, false, 1, true, true, true),
+    (15, "DualSVec64<6>", DualSVec64<6>, Vector, 0, false, 1, true, true, true),
+    (16, "Dual2SVec64<1>", Dual2SVec64<1>, Vector, 0, false, 2, true, true, true),
+    (17, "Dual2SVec64<2>", Dual2SVec64<2>, Vector, 0, false, 2, true, true, true),
+    (18, "Dual2SVec64<3>", Dual2SVec64<3>, Vector, 0, false, 2, true, true, true),
+    (19, "Dual2SVec64<4>", Dual2SVec64<4>, Vector, 0, false, 2, true, true, true),
+    (20, "Dual2SVec64<5>", Dual2SVec64<5>, Vector, 0, false, 2, true, true, true),
+    (21, "Dual2SVec64<6>", Dual2SVec64<6>, Vector, 0, false, 2, true, true, true),
+    (22, "HyperDualSVec64<1,1>", HyperDualSVec64<1, 1>, Vector, 0, false, 2, true, true, false),
+    (23, "HyperDualSVec64<1,3>", HyperDualSVec64<1, 3>, Vector, 0, false, 2, true, true, false),
+    (24, "HyperDualSVec64<2,2>", HyperDualSVec64<2, 2>, Vector, 0, false, 2, true, true, false),
+    (25, "HyperDualSVec64<2,3>", HyperDualSVec64<2, 3>, Vector, 0, false, 2, true, true, false),
+    (26, "HyperDualSVec64<3,1>", HyperDualSVec64<3, 1>, Vector, 0, false, 2, true, true, false),
+    (27, "HyperDualSVec64<3,3>", HyperDualSVec64<3, 3>, Vector, 0, false, 2, true, true, false),
+    (28, "HyperDualSVec64<6,2>", HyperDualSVec64<6, 2>, Vector, 0, false, 2, true, true, false),
+    (29, "HyperDualSVec64<2,6>", HyperDualSVec64<2, 6>, Vector, 0, false, 2, true, true, false),
+    (30, "HyperDualSVec64<6,6>", HyperDualSVec64<6, 6>, Vector, 0, false, 2, true, true, false),
+    (31, "DualDVec64", DualDVec64, Vector, 1, false, 1, true, false, true),
+    (32, "Dual2DVec64", Dual2DVec64, Vector, 1, false, 2, true, false, true),
+    (33, "HyperDualDVec64", HyperDualDVec64, Vector, 2, false, 2, true, false, false),
+    (34, "DualSVec32<2>", DualSVec32<2>, Vector, 0, true, 1, true, true, true),
+    (35, "DualSVec32<3>", DualSVec32<3>, Vector, 0, true, 1, true, true, true),
+    (36, "Dual2SVec32<2>", Dual2SVec32<2>, Vector, 0, true, 2, true, true, true),
+    (37, "Dual2SVec32<3>", Dual2SVec32<3>, Vector, 0, true, 2, true, true, true),
+    (38, "HyperDualSVec32<2,3>", HyperDualSVec32<2, 3>, Vector, 0, true, 2, true, true, false),
+    (39, "DualDVec32", DualDVec32, Vector, 1, true, 1, true, false, true),
+    (40, "Dual2DVec32", Dual2DVec32, Vector, 1, true, 2, true, false, true),
+    (41, "HyperDualDVec32", HyperDualDVec32, Vector, 2, true, 2, true, false, false),
+    (42, "Dual<Dual64>", Dual<D64, f64>, Nested, 0, false, 2, false, true, false),
+    (43, "Dual<Dual<Dual64>>", Dual<Dual<D64, f64>, f64>, Nested, 0, false, 3, false, true, false),
+    (44, "Dual2<Dual64>", Dual2<D64, f64>, Nested, 0, false, 3, false, true, false),
+    (45, "Dual<Dual2_64>", Dual<Dual2_64, f64>, Nested, 0, false, 3, false, true, false),
+    (46, "Dual3<Dual64>", Dual3<D64, f64>, Nested, 0, false, 4, false, true, false),
+    (47, "HyperDual<Dual64>", HyperDual<D64, f64>, Nested, 0, false, 3, false, true, false),
+    (48, "Dual2<Dual2_64>", Dual2<Dual2_64, f64>, Nested, 0, false, 4, false, true, false),
+    (49, "HyperDual<HyperDual64>", HyperDual<HyperDual64, f64>, Nested, 0, false, 4, false, true, false),
+    (50, "DualVec<Dual64,2>", DualVec<D64, f64, Const<2>>, Nested, 0, false, 2, true, true, false),
+    (51, "DualVec<Dual64,3>", DualVec<D64, f64, Const<3>>, Nested, 0, false, 2, true, true, false),
+    (52, "Dual<DualSVec64<2>>", Dual<DualSVec64<2>, f64>, Nested, 0, false, 2, true, true, false),
+    (53, "Dual2Vec<Dual64,2>", Dual2Vec<D64, f64, Const<2>>, Nested, 0, false, 3, true, true, false),
+    (54, "Dual<Dual32>", Dual<Dual32, f32>, Nested, 0, true, 2, false, true, false),
+    (55, "HyperDualVec<Dual64,2,2>", HyperDualVec<D64, f64, Const<2>, Const<2>>, Nested, 0, false, 3, true, true, false),
+    (56, "DualVec<Dual64,Dyn>", DualVec<D64, f64, Dyn>, Nested, 1, false, 2, true, false, false),
+    (57, "HyperHyperDual<Dual64>", HyperHyperDual<D64, f64>, Nested, 0, false, 4, false, true, false),
 }
 
 pub fn n_types() -> usize {
